@@ -268,6 +268,47 @@ def r20_1(run, model, mir, g):
 def r20_2(run, model):
     run.rule("R20.2", "every token_at_offset(offset) in the query code is preceded by a rejecting bounds test of that offset against the tree's "
                       "text range, or the offset went through a checked helper (`…(src, offset)?`) that returns None outside the text")
+    def guarded(f, v, pos):
+        """is the offset variable `v` of function f known to lie inside the text before position `pos`"""
+        ok = False
+        why = "no bounds test found"
+        # variables validated by a checked helper: bound (by any pattern) from `helper(src, X)?` where helper uses str::get
+        validated = {}
+        for l in S.find(f.body, "Local"):
+            init = l.get("init")
+            if init is None or (l["sp"][0], l["sp"][1]) > pos:
+                continue
+            if init["k"] == "Try" and init["expr"]["k"] == "Call":
+                inner = init["expr"]
+                callee = S.callee_name(inner)
+                h = model.find_fns(callee, QUERY)
+                if h and ".get(" in S.norm_ws(run.facts.text(QUERY, h[0].body["sp"])) and any("src" in S.idents(a) for a in inner["args"]):
+                    for b_ in S.pat_bindings(l["pat"]):
+                        validated[b_] = f"`{callee}(src, …)?` (uses str::get) rejects offsets outside the text"
+                    for a in inner["args"]:
+                        for i in S.idents(a):
+                            if "offset" in i:
+                                validated[i] = f"`{callee}(src, {i})?` succeeded"
+        changed = True
+        while changed:
+            changed = False
+            for l in S.find(f.body, "Local"):
+                if l["pat"]["k"] == "PIdent" and l["pat"]["name"] not in validated and l.get("init") is not None:
+                    ids = {i for i in S.idents(l["init"]) if i in validated}
+                    others = {i for i in S.idents(l["init"]) if ("offset" in i or "start" in i) and i not in validated}
+                    if ids and not others:
+                        validated[l["pat"]["name"]] = f"derived from {sorted(ids)} ({validated[sorted(ids)[0]]})"
+                        changed = True
+        if v in validated:
+            ok, why = True, validated[v]
+        for iff in S.find(f.body, "If"):
+            if ok or (iff["sp"][0], iff["sp"][1]) > pos:
+                continue
+            ct = S.norm_ws(run.facts.text(QUERY, iff["cond"]["sp"]))
+            if v and re.search(r"\b" + re.escape(v) + r"\b", ct) and re.search(r"text_range\(\)\.end\(\)|\.len\(\)|text_len\(\)", ct) and any(True for _ in S.find(iff["then"], "Return")):
+                ok, why = True, f"`if {ct}` returns before the call"
+        return ok, why
+
     n = 0
     for f in model.fns(QUERY):
         if f.body is None:
@@ -278,43 +319,18 @@ def r20_2(run, model):
             n += 1
             var = sorted(S.idents(c["args"][0]))
             v = var[0] if var else None
-            ok = False
-            why = "no bounds test found"
-            # variables validated by a checked helper: bound (by any pattern) from `helper(src, X)?` where helper uses str::get
-            validated = {}
-            for l in S.find(f.body, "Local"):
-                init = l.get("init")
-                if init is None or (l["sp"][0], l["sp"][1]) > (c["sp"][0], c["sp"][1]):
-                    continue
-                if init["k"] == "Try" and init["expr"]["k"] == "Call":
-                    inner = init["expr"]
-                    callee = S.callee_name(inner)
-                    h = model.find_fns(callee, QUERY)
-                    if h and ".get(" in S.norm_ws(run.facts.text(QUERY, h[0].body["sp"])) and any("src" in S.idents(a) for a in inner["args"]):
-                        for b_ in S.pat_bindings(l["pat"]):
-                            validated[b_] = f"`{callee}(src, …)?` (uses str::get) rejects offsets outside the text"
-                        for a in inner["args"]:
-                            for i in S.idents(a):
-                                if "offset" in i:
-                                    validated[i] = f"`{callee}(src, {i})?` succeeded"
-            changed = True
-            while changed:
-                changed = False
-                for l in S.find(f.body, "Local"):
-                    if l["pat"]["k"] == "PIdent" and l["pat"]["name"] not in validated and l.get("init") is not None:
-                        ids = {i for i in S.idents(l["init"]) if i in validated}
-                        others = {i for i in S.idents(l["init"]) if ("offset" in i or "start" in i) and i not in validated}
-                        if ids and not others:
-                            validated[l["pat"]["name"]] = f"derived from {sorted(ids)} ({validated[sorted(ids)[0]]})"
-                            changed = True
-            if v in validated:
-                ok, why = True, validated[v]
-            for iff in S.find(f.body, "If"):
-                if ok or (iff["sp"][0], iff["sp"][1]) > (c["sp"][0], c["sp"][1]):
-                    continue
-                ct = S.norm_ws(run.facts.text(QUERY, iff["cond"]["sp"]))
-                if v and re.search(r"\b" + re.escape(v) + r"\b", ct) and re.search(r"text_range\(\)\.end\(\)|\.len\(\)|text_len\(\)", ct) and any(True for _ in S.find(iff["then"], "Return")):
-                    ok, why = True, f"`if {ct}` returns before the call"
+            ok, why = guarded(f, v, (c["sp"][0], c["sp"][1]))
+            ps = [p["pat"].get("name") for p in f.params() if not p["self"]]
+            if not ok and v in ps:
+                # the offset is a parameter of a private helper: every caller in the file has tested what it passes
+                sites_ = [(g, cc) for g in model.fns(QUERY) if g.body is not None and g is not f for cc in S.walk(g.body)
+                          if cc["k"] in ("Call", "MethodCall") and S.callee_name(cc) == f.name and len(cc["args"]) > ps.index(v)]
+                res = []
+                for g, cc in sites_:
+                    ids = sorted(S.idents(cc["args"][ps.index(v)]))
+                    res.append(guarded(g, ids[0] if ids else None, (cc["sp"][0], cc["sp"][1])))
+                if sites_ and all(r_[0] for r_ in res) and "pub" not in (f.node.get("vis") or ""):
+                    ok, why = True, f"parameter of a private helper; its {len(sites_)} caller(s) test the offset first: {res[0][1]}"
             run.ob("R20.2", f"{f.qual}|token_at_offset({v})", ok, site(QUERY, c["sp"]), why,
                    witness="hover at a column past the end of the last line: rowan asserts the offset is inside the tree and panics")
     run.floor("token_at_offset calls in query.rs", n, 3)
@@ -382,6 +398,12 @@ def r20_6(run, model):
                 a = a["expr"]
             if a["k"] == "Lit" or a["k"] in ("Array", "Closure"):
                 continue
+            if a["k"] == "Path" and len(a["segs"]) == 1 and lets.get(a["segs"][0], {}).get("k") == "Closure":
+                continue
+            # a character predicate (a function of the file, `char::is_alphanumeric`, ..) tests one character, not a name
+            if a["k"] == "Path" and (a["segs"][0] == "char" or (len(a["segs"]) == 1 and a["segs"][0] not in lets and a["segs"][0] not in
+                                     {p["pat"].get("name") for p in f.params()} and any(g.name == a["segs"][0] for g in model.fns(f.file)))):
+                continue
             n += 1
             at = S.norm_ws(run.facts.text(f.file, a["sp"]))
 
@@ -447,10 +469,16 @@ def r20_9(run, model):
                       "expression lookup (the expression lookup climbs to enclosing expressions, so it would answer for the surrounding "
                       "match / closure / loop)")
     f = model.fn("hover_type", QUERY)
+    # hover_type itself, or the helper it hands the token to: both lookups have to sit in one function for their order to mean anything
     pos = {}
-    for c in S.walk(f.body):
-        if c["k"] == "Call" and S.callee_name(c) in ("find_mapped_pat_id_from_token", "find_mapped_expr_id_from_token"):
-            pos.setdefault(S.callee_name(c), (c["sp"][0], c["sp"][1]))
+    for g in model.scope_fns(f):
+        here = {}
+        for c in S.walk(g.body):
+            if c["k"] == "Call" and S.callee_name(c) in ("find_mapped_pat_id_from_token", "find_mapped_expr_id_from_token"):
+                here.setdefault(S.callee_name(c), (c["sp"][0], c["sp"][1]))
+        if len(here) == 2:
+            pos = here
+            f = g
     if len(pos) < 2:
         raise AnalysisIncomplete("hover_type: pattern / expression lookups not found")
     ok = pos["find_mapped_pat_id_from_token"] < pos["find_mapped_expr_id_from_token"]
